@@ -296,6 +296,19 @@ pub fn bases(seed: u64, thorough: bool) -> Vec<(String, Vec<u8>)> {
     // builder-made
     let e = |name: &[u8], m: u16| ESpec { name: name.to_vec(), method: m, content: c300.clone(), ..Default::default() };
     let b = |spec: Spec| build(&spec).0;
+    // the same name more than once (legal; lookups by name find the last one, an append round keeps them all)
+    v.push((
+        "writer:duplicate-names".into(),
+        w(vec![
+            Call::StartFile { name: "notes.txt".into(), opts: FOpts::m(8) },
+            Call::Write(b"first version of the notes".to_vec()),
+            Call::StartFile { name: "data.bin".into(), opts: FOpts::m(0) },
+            Call::Write(b"data".to_vec()),
+            Call::StartFile { name: "notes.txt".into(), opts: FOpts::m(8) },
+            Call::Write(b"second version of the notes, longer".to_vec()),
+            Call::AddDir { name: "notes.txt".into(), opts: FOpts::m(0) },
+        ]),
+    ));
     v.push(("builder:prefix-1000".into(), b(Spec { prefix: vec![0x5a; 1000], entries: vec![e(b"p1", 8), e(b"p2", 0)], comment: b"pc".to_vec(), ..Default::default() })));
     v.push(("builder:zip64-eocd-forced".into(), b(Spec { entries: vec![e(b"z1", 8)], force_zip64_eocd: true, ..Default::default() })));
     v.push(("builder:zip64-eocd-forced-empty".into(), b(Spec { force_zip64_eocd: true, comment: b"e".to_vec(), ..Default::default() })));
